@@ -1,5 +1,6 @@
 import RedisEmu.Resp
 import RedisEmu.Proofs.Codec
+import RedisEmu.Proofs.Framing
 import Mathlib.Tactic.SplitIfs
 /-
   C01 — one well-formed reply per command, framing independent, binary safe.
@@ -128,5 +129,383 @@ theorem parse_encodeCmd (argv : List Bytes) (rest : Bytes)
   rw [parseN_bulks argv hl _ _ rest [] hfuel]
   simp [encodeCmd, ser, serLen, crlf]
   omega
+
+/-! ### framing independence: a command that has not completely arrived is not a command yet -/
+
+/-- a bulk string whose bytes have not all arrived (any strict prefix of its encoding) is "not there yet" -/
+theorem parse_bulk_incomplete (b : Bytes) (hl : b.length < 2 ^ 63) (p q : Bytes) (fuel pos : Nat)
+    (hp : p ++ q = ser (.bulk b)) (hq : q ≠ []) :
+    parseValue fuel false p pos = .invalid := by
+  cases fuel with
+  | zero => simp [parseValue]
+  | succ fuel =>
+  obtain ⟨_, hall, _, _⟩ := natDigits_spec b.length
+  have hline : ∀ c ∈ (36 : UInt8) :: natDigits b.length, c ≠ 13 := by
+    intro c hc
+    rcases List.mem_cons.mp hc with e | e
+    · subst e; decide
+    · exact (hall c e).2
+  have hser : ser (.bulk b) = (((36 : UInt8) :: natDigits b.length) ++ [13, 10]) ++ (b ++ [13, 10]) := by
+    simp [ser, serLen, crlf, List.append_assoc]
+  rw [hser] at hp
+  rcases (List.append_eq_append_iff.mp hp).symm with ⟨a', ha, hb⟩ | ⟨c', hc, hq'⟩
+  · -- the header line is there: p = header ++ a', and a' is short of the body
+    have hp' : p = ((36 : UInt8) :: natDigits b.length) ++ 13 :: 10 :: a' := by
+      rw [ha]; simp [List.append_assoc]
+    rw [hp']
+    unfold parseValue
+    rw [splitLine_line _ _ hline]
+    simp only
+    have h1 : ((36 : UInt8) == 43) = false := by decide
+    have h2 : ((36 : UInt8) == 45) = false := by decide
+    have h3 : ((36 : UInt8) == 36) = true := by decide
+    simp only [h1, h2, h3, Bool.false_eq_true, ↓reduceIte]
+    have hqq : ((36 : UInt8) :: natDigits b.length == sb "$?") = false := by
+      rw [sb_dollarq]
+      simp only [List.cons_beq_cons, beq_self_eq_true, Bool.true_and]
+      exact digits_ne_q b.length
+    simp only [hqq, Bool.false_eq_true, ↓reduceIte, lineCount, List.drop_succ_cons, List.drop_zero,
+      parseInt64_natDigits b.length hl]
+    have hnn : ¬ ((b.length : Int) < 0) := by omega
+    simp only [hnn, ↓reduceIte, Int.toNat_natCast]
+    have hlen : a'.length < b.length + 2 := by
+      have := congrArg List.length hb
+      simp only [List.length_append, List.length_cons, List.length_nil] at this
+      have : 0 < q.length := List.length_pos_iff.mpr hq
+      omega
+    unfold takeBulk
+    have : b.length + 2 > a'.length := hlen
+    simp [this]
+  · by_cases hc' : c' = []
+    · -- exactly the header line, nothing of the body
+      subst hc'
+      simp only [List.append_nil] at hc
+      have hp' : p = ((36 : UInt8) :: natDigits b.length) ++ 13 :: 10 :: [] := by
+        rw [← hc]
+      rw [hp']
+      unfold parseValue
+      rw [splitLine_line _ _ hline]
+      simp only
+      have h1 : ((36 : UInt8) == 43) = false := by decide
+      have h2 : ((36 : UInt8) == 45) = false := by decide
+      have h3 : ((36 : UInt8) == 36) = true := by decide
+      simp only [h1, h2, h3, Bool.false_eq_true, ↓reduceIte]
+      have hqq : ((36 : UInt8) :: natDigits b.length == sb "$?") = false := by
+        rw [sb_dollarq]
+        simp only [List.cons_beq_cons, beq_self_eq_true, Bool.true_and]
+        exact digits_ne_q b.length
+      simp only [hqq, Bool.false_eq_true, ↓reduceIte, lineCount, List.drop_succ_cons, List.drop_zero,
+        parseInt64_natDigits b.length hl]
+      have hnn : ¬ ((b.length : Int) < 0) := by omega
+      simp only [hnn, ↓reduceIte, Int.toNat_natCast]
+      unfold takeBulk
+      simp
+    · -- not even the header line
+      unfold parseValue
+      rw [splitLine_incomplete _ hline p c' hc.symm hc']
+
+/-- the elements of a command of which some bytes are still missing: no command yet -/
+theorem parseN_bulks_incomplete (argv : List Bytes) (hl : ∀ a ∈ argv, a.length < 2 ^ 63) :
+    ∀ (fuel pos : Nat) (acc : List Value) (p q : Bytes),
+      p ++ q = serList (argv.map .bulk) → q ≠ [] →
+      parseN fuel argv.length p pos acc = .invalid := by
+  induction argv with
+  | nil =>
+    intro fuel pos acc p q hp hq
+    simp only [List.map_nil, serList, List.append_eq_nil_iff] at hp
+    exact absurd hp.2 hq
+  | cons a r ih =>
+    intro fuel pos acc p q hp hq
+    cases fuel with
+    | zero => simp [parseN]
+    | succ fuel =>
+    simp only [List.map_cons, serList] at hp
+    simp only [List.length_cons]
+    unfold parseN
+    simp only
+    have hla := hl a List.mem_cons_self
+    have hlr : ∀ x ∈ r, x.length < 2 ^ 63 := fun x hx => hl x (List.mem_cons_of_mem _ hx)
+    rcases (List.append_eq_append_iff.mp hp).symm with ⟨a', ha, hb⟩ | ⟨c', hc, _⟩
+    · -- the first element is complete; the shortfall is further on
+      rw [ha]
+      cases fuel with
+      | zero => simp [parseValue]
+      | succ fuel =>
+        rw [parse_bulk a a' fuel pos hla]
+        simp only
+        exact ih hlr (fuel + 1) _ (.bulk a :: acc) a' q hb.symm hq
+    · by_cases hc' : c' = []
+      · subst hc'
+        simp only [List.append_nil] at hc
+        -- p is exactly the first element; the rest (not empty, because q is not) is missing
+        cases fuel with
+        | zero => simp [parseValue]
+        | succ fuel =>
+          have := parse_bulk a [] fuel pos hla
+          simp only [List.append_nil] at this
+          rw [← hc, this]
+          simp only
+          have hq2 : ([] : Bytes) ++ q = serList (r.map .bulk) := by
+            have h2 := hp
+            rw [← hc] at h2
+            exact List.append_cancel_left h2
+          exact ih hlr (fuel + 1) _ (.bulk a :: acc) [] q hq2 hq
+      · rw [parse_bulk_incomplete a hla p c' fuel pos hc.symm hc']
+
+/-- **A command whose bytes have not all arrived is "not there yet"** — for every argument vector and
+    every strict prefix of its encoding the parser reports nothing (never a shorter command, never an
+    error): the connection keeps the bytes and waits. -/
+theorem parse_encodeCmd_incomplete (argv : List Bytes) (p q : Bytes)
+    (hn : argv.length < 2 ^ 63) (hl : ∀ a ∈ argv, a.length < 2 ^ 63)
+    (hp : p ++ q = encodeCmd argv) (hq : q ≠ []) :
+    parseRes p = .invalid := by
+  obtain ⟨_, hall, _, _⟩ := natDigits_spec argv.length
+  have hline : ∀ c ∈ (42 : UInt8) :: natDigits argv.length, c ≠ 13 := by
+    intro c hc
+    rcases List.mem_cons.mp hc with e | e
+    · subst e; decide
+    · exact (hall c e).2
+  have henc : encodeCmd argv =
+      (((42 : UInt8) :: natDigits argv.length) ++ [13, 10]) ++ serList (argv.map .bulk) := by
+    simp [encodeCmd, ser, serLen, crlf, List.append_assoc]
+  rw [henc] at hp
+  unfold parseRes parse
+  rcases (List.append_eq_append_iff.mp hp).symm with ⟨a', ha, hb⟩ | ⟨c', hc, _⟩
+  · have hp' : p = ((42 : UInt8) :: natDigits argv.length) ++ 13 :: 10 :: a' := by
+      rw [ha]; simp [List.append_assoc]
+    rw [hp']
+    unfold parseValue
+    rw [splitLine_line _ _ hline]
+    simp only
+    have h1 : ((42 : UInt8) == 43) = false := by decide
+    have h2 : ((42 : UInt8) == 45) = false := by decide
+    have h3 : ((42 : UInt8) == 36) = false := by decide
+    have h4 : ((42 : UInt8) == 58) = false := by decide
+    have h5 : ((42 : UInt8) == 42) = true := by decide
+    simp only [h1, h2, h3, h4, h5, Bool.false_eq_true, ↓reduceIte]
+    have hqq : ((42 : UInt8) :: natDigits argv.length == sb "*?") = false := by
+      rw [sb_starq]
+      simp only [List.cons_beq_cons, beq_self_eq_true, Bool.true_and]
+      exact digits_ne_q argv.length
+    simp only [hqq, Bool.false_eq_true, ↓reduceIte, lineCount, List.drop_succ_cons, List.drop_zero,
+      parseInt64_natDigits argv.length hn]
+    have hnn : ¬ ((argv.length : Int) < 0) := by omega
+    simp only [hnn, ↓reduceIte, Int.toNat_natCast, makeCrashes, Bool.false_eq_true]
+    rw [parseN_bulks_incomplete argv hl _ _ [] a' q hb.symm hq]
+  · by_cases hc' : c' = []
+    · subst hc'
+      simp only [List.append_nil] at hc
+      have hp' : p = ((42 : UInt8) :: natDigits argv.length) ++ 13 :: 10 :: [] := by
+        rw [← hc]
+      have hq2 : ([] : Bytes) ++ q = serList (argv.map .bulk) := by
+        have h2 := hp
+        rw [← hc] at h2
+        exact List.append_cancel_left h2
+      rw [hp']
+      unfold parseValue
+      rw [splitLine_line _ _ hline]
+      simp only
+      have h1 : ((42 : UInt8) == 43) = false := by decide
+      have h2 : ((42 : UInt8) == 45) = false := by decide
+      have h3 : ((42 : UInt8) == 36) = false := by decide
+      have h4 : ((42 : UInt8) == 58) = false := by decide
+      have h5 : ((42 : UInt8) == 42) = true := by decide
+      simp only [h1, h2, h3, h4, h5, Bool.false_eq_true, ↓reduceIte]
+      have hqq : ((42 : UInt8) :: natDigits argv.length == sb "*?") = false := by
+        rw [sb_starq]
+        simp only [List.cons_beq_cons, beq_self_eq_true, Bool.true_and]
+        exact digits_ne_q argv.length
+      simp only [hqq, Bool.false_eq_true, ↓reduceIte, lineCount, List.drop_succ_cons, List.drop_zero,
+        parseInt64_natDigits argv.length hn]
+      have hnn : ¬ ((argv.length : Int) < 0) := by omega
+      simp only [hnn, ↓reduceIte, Int.toNat_natCast, makeCrashes, Bool.false_eq_true]
+      rw [parseN_bulks_incomplete argv hl _ _ [] [] q hq2 hq]
+    · unfold parseValue
+      rw [splitLine_incomplete _ hline p c' hc.symm hc']
+
+/-! ### the connection's buffer: any segmentation of a pipeline gives the same commands -/
+
+/-- a pipeline of well-formed commands as it travels on the wire -/
+def wire (cmds : List (List Bytes)) : Bytes := (cmds.map encodeCmd).flatten
+
+def cmdValue (argv : List Bytes) : Value := .array (argv.map .bulk)
+
+/-- sizes a 64-bit length field can express (the only requirement on a command) -/
+def Sendable (cmds : List (List Bytes)) : Prop :=
+  ∀ argv ∈ cmds, argv.length < 2 ^ 63 ∧ ∀ a ∈ argv, a.length < 2 ^ 63
+
+theorem encodeCmd_ne_nil (argv : List Bytes) : encodeCmd argv ≠ [] := by
+  simp [encodeCmd, ser, serLen]
+
+/-- what may be left in the buffer: nothing, or a strict prefix of the encoding of the next command -/
+def Partial (p : Bytes) (rest : List (List Bytes)) : Prop :=
+  p = [] ∨ ∃ argv rest' q, rest = argv :: rest' ∧ q ≠ [] ∧ p ++ q = encodeCmd argv
+
+/-- however the wire is cut in two, the first part is some complete commands plus a partial one -/
+theorem wire_split (cmds : List (List Bytes)) :
+    ∀ (x y : Bytes), x ++ y = wire cmds →
+      ∃ done rest p, cmds = done ++ rest ∧ x = wire done ++ p ∧ Partial p rest := by
+  induction cmds with
+  | nil =>
+    intro x y h
+    simp only [wire, List.map_nil, List.flatten_nil, List.append_eq_nil_iff] at h
+    exact ⟨[], [], [], rfl, by simp [wire, h.1], Or.inl rfl⟩
+  | cons c cs ih =>
+    intro x y h
+    have hw : wire (c :: cs) = encodeCmd c ++ wire cs := by simp [wire]
+    rw [hw] at h
+    rcases List.append_eq_append_iff.mp h with ⟨c', hc, hy⟩ | ⟨a', ha, hb⟩
+    · -- x ends inside (or exactly at the end of) the first command
+      by_cases hc' : c' = []
+      · subst hc'
+        simp only [List.append_nil] at hc
+        exact ⟨[c], cs, [], rfl, by simp [wire, hc], Or.inl rfl⟩
+      · exact ⟨[], c :: cs, x, rfl, by simp [wire], Or.inr ⟨c, cs, c', rfl, hc', hc.symm⟩⟩
+    · obtain ⟨done, rest, p, hd, hx, hp⟩ := ih a' y hb.symm
+      refine ⟨c :: done, rest, p, by simp [hd], ?_, hp⟩
+      rw [ha, hx]
+      simp [wire, List.append_assoc]
+
+theorem parseRes_nil : parseRes [] = .invalid := by
+  simp [parseRes, parse, parseValue, splitLine]
+
+theorem parseRes_partial (p : Bytes) (rest : List (List Bytes)) (hs : Sendable rest) (hp : Partial p rest) :
+    parseRes p = .invalid := by
+  rcases hp with rfl | ⟨argv, rest', q, hr, hq, hpq⟩
+  · exact parseRes_nil
+  · have := hs argv (by rw [hr]; exact List.mem_cons_self)
+    exact parse_encodeCmd_incomplete argv p q this.1 this.2 hpq hq
+
+/-- draining a buffer that holds complete commands followed by a partial one hands exactly those
+    commands to the dispatcher, in order, and keeps the partial one -/
+theorem drain_wire (done : List (List Bytes)) :
+    ∀ (rest : List (List Bytes)) (p : Bytes) (s : ConnState) (fuel : Nat),
+      Sendable done → Sendable rest → Partial p rest → s.dead = false →
+      s.inbound = wire done ++ p → done.length + 1 ≤ fuel →
+      drain fuel s = { inbound := p, emitted := s.emitted ++ done.map cmdValue, dead := false } := by
+  induction done with
+  | nil =>
+    intro rest p s fuel _ hsr hp hdead hin hf
+    obtain ⟨fuel, rfl⟩ : ∃ f, fuel = f + 1 := ⟨fuel - 1, by simp at hf; omega⟩
+    simp only [wire, List.map_nil, List.flatten_nil, List.nil_append] at hin
+    unfold drain
+    simp only [hdead, Bool.false_eq_true, ↓reduceIte, hin, parseRes_partial p rest hsr hp]
+    cases s; simp_all
+  | cons c cs ih =>
+    intro rest p s fuel hsd hsr hp hdead hin hf
+    obtain ⟨fuel, rfl⟩ : ∃ f, fuel = f + 1 := ⟨fuel - 1, by simp at hf; omega⟩
+    have hc := hsd c List.mem_cons_self
+    have hscs : Sendable cs := fun a ha => hsd a (List.mem_cons_of_mem _ ha)
+    have hw : wire (c :: cs) ++ p = encodeCmd c ++ (wire cs ++ p) := by simp [wire, List.append_assoc]
+    rw [hw] at hin
+    unfold drain
+    simp only [hdead, Bool.false_eq_true, ↓reduceIte, hin, parse_encodeCmd c _ hc.1 hc.2]
+    have hne : ((encodeCmd c).length == 0) = false := by
+      have := encodeCmd_ne_nil c
+      cases h : encodeCmd c with
+      | nil => exact absurd h this
+      | cons _ _ => simp
+    simp only [hne, Bool.false_eq_true, ↓reduceIte, List.drop_left']
+    rw [ih rest p _ fuel hscs hsr hp rfl rfl (by simp at hf ⊢; omega)]
+    simp [cmdValue, List.append_assoc]
+
+/-- the state of a connection after some of the wire has arrived, however it was segmented: the
+    commands completely received have been handed over, the partial one is kept -/
+theorem feed_invariant (chunks : List Bytes) :
+    ∀ (s : ConnState) (rest : List (List Bytes)) (p : Bytes),
+      Sendable rest → Partial p rest → s.dead = false → s.inbound = p →
+      p ++ chunks.flatten = wire rest →
+      chunks.foldl feed s = { inbound := [], emitted := s.emitted ++ rest.map cmdValue, dead := false } := by
+  induction chunks with
+  | nil =>
+    intro s rest p hs hp hdead hin hw
+    simp only [List.flatten_nil, List.append_nil] at hw
+    -- nothing more will arrive: the buffer cannot hold a partial command
+    have hp0 : p = [] ∧ rest = [] := by
+      rcases hp with rfl | ⟨argv, rest', q, hr, hq, hpq⟩
+      · cases rest with
+        | nil => exact ⟨rfl, rfl⟩
+        | cons c cs =>
+          have : wire (c :: cs) = encodeCmd c ++ wire cs := by simp [wire]
+          rw [this] at hw
+          have := encodeCmd_ne_nil c
+          simp_all
+      · exfalso
+        rw [hr] at hw
+        have h1 : wire (argv :: rest') = encodeCmd argv ++ wire rest' := by simp [wire]
+        rw [h1, ← hpq, List.append_assoc] at hw
+        have := congrArg List.length hw
+        simp only [List.length_append] at this
+        have : 0 < q.length := List.length_pos_iff.mpr hq
+        omega
+    obtain ⟨rfl, rfl⟩ := hp0
+    cases s; simp_all
+  | cons c cs ih =>
+    intro s rest p hs hp hdead hin hw
+    simp only [List.flatten_cons, List.foldl_cons] at hw ⊢
+    -- the bytes now in the buffer are some complete commands and a partial one
+    obtain ⟨done, rest2, p', hd, hx, hp'⟩ := wire_split rest (p ++ c) cs.flatten (by rw [List.append_assoc]; exact hw)
+    have hsd : Sendable done := fun a ha => hs a (by rw [hd]; exact List.mem_append_left _ ha)
+    have hs2 : Sendable rest2 := fun a ha => hs a (by rw [hd]; exact List.mem_append_right _ ha)
+    have hfeed : feed s c = { inbound := p', emitted := s.emitted ++ done.map cmdValue, dead := false } := by
+      unfold feed
+      refine drain_wire done rest2 p' { s with inbound := s.inbound ++ c } _ hsd hs2 hp' hdead (by simp [hin, hx]) ?_
+      simp only [hin]
+      have : done.length ≤ (wire done).length := by
+        clear hd hx hsd
+        induction done with
+        | nil => simp
+        | cons d ds ihd =>
+          have h1 : wire (d :: ds) = encodeCmd d ++ wire ds := by simp [wire]
+          have := encodeCmd_ne_nil d
+          have : 0 < (encodeCmd d).length := List.length_pos_iff.mpr this
+          simp only [h1, List.length_cons, List.length_append]
+          omega
+      simp only [hx, List.length_append]
+      omega
+    rw [hfeed]
+    have hw2 : p' ++ cs.flatten = wire rest2 := by
+      have h1 : wire rest = wire done ++ wire rest2 := by simp [hd, wire]
+      have h2 : (wire done ++ p') ++ cs.flatten = wire done ++ wire rest2 := by
+        rw [← hx, ← h1, List.append_assoc]; exact hw
+      rw [List.append_assoc] at h2
+      exact List.append_cancel_left h2
+    rw [ih _ rest2 p' hs2 hp' rfl rfl hw2]
+    simp [hd, List.append_assoc]
+
+/-- **Framing independence.** For every pipeline of well-formed commands and every way of cutting its
+    bytes into TCP segments (any number of segments, cuts anywhere: inside a length, between CR and LF,
+    inside an argument), the connection hands exactly the commands of the pipeline to the dispatcher,
+    in order, each once, and its buffer is empty afterwards. -/
+theorem framing_independent (cmds : List (List Bytes)) (chunks : List Bytes)
+    (hs : Sendable cmds) (hc : chunks.flatten = wire cmds) :
+    chunks.foldl feed {} = { inbound := [], emitted := cmds.map cmdValue, dead := false } := by
+  have := feed_invariant chunks {} cmds [] hs (Or.inl rfl) rfl rfl (by simpa using hc)
+  simpa using this
+
+/-- … hence two segmentations of the same bytes cannot be told apart by anything that follows -/
+theorem segmentation_irrelevant (cmds : List (List Bytes)) (chunks1 chunks2 : List Bytes)
+    (hs : Sendable cmds) (h1 : chunks1.flatten = wire cmds) (h2 : chunks2.flatten = wire cmds) :
+    chunks1.foldl feed {} = chunks2.foldl feed {} := by
+  rw [framing_independent cmds chunks1 hs h1, framing_independent cmds chunks2 hs h2]
+
+/-- non-vacuity: `SET k "\r\n"` and `GET k`, cut inside the CR LF of a length line and inside the
+    binary value, arrive as the two commands -/
+example :
+    let cmds : List (List Bytes) := [[[83, 69, 84], [107], [13, 10]], [[71, 69, 84], [107]]]
+    let w := wire cmds
+    ([w.take 3, (w.drop 3).take 22, w.drop 25].foldl feed {}).emitted = cmds.map cmdValue := by
+  intro cmds w
+  have hs : Sendable cmds := by
+    intro argv h
+    have h2 : argv.length ≤ 3 ∧ ∀ a ∈ argv, a.length ≤ 3 := by
+      simp only [cmds, List.mem_cons, List.mem_nil_iff, or_false] at h
+      rcases h with rfl | rfl <;> simp
+    exact ⟨by omega, fun a ha => by have := h2.2 a ha; omega⟩
+  have hc : [w.take 3, (w.drop 3).take 22, w.drop 25].flatten = wire cmds := by
+    simp only [List.flatten_cons, List.flatten_nil, List.append_nil]
+    have : List.drop 25 w = List.drop 22 (List.drop 3 w) := by simp [List.drop_drop]
+    rw [this, List.take_append_drop, List.take_append_drop]
+  rw [framing_independent cmds _ hs hc]
 
 end RedisEmu
